@@ -142,7 +142,8 @@ func genC01(c *Cfg, emit func([]string)) {
 		for _, route := range routes {
 			for _, st := range sigStates {
 				acls := []string{aclOK(kt, 1, 0), aclOK(kt, 1, 2), "status", "empty", "garbled",
-					"ok:A1:" + kt + ":0:110", "ok:A1:" + kt + ":0:101", "ok:A1:" + kt + ":0:011", "ok:A1:-:0:100"}
+					"ok:A1:" + kt + ":0:110", "ok:A1:" + kt + ":0:101", "ok:A1:" + kt + ":0:011", "ok:A1:-:0:100",
+					"ok:A1:" + kt + ":0:10010"} // the ACL reports a pending key-change list for the address
 				other := map[string]string{"ed": "secp", "secp": "gost", "gost": "ed"}[kt]
 				acls = append(acls, "ok:A1:"+other+":0:100") // ACL claims another algorithm for this key
 				for _, acl := range acls {
@@ -162,6 +163,8 @@ func genC01(c *Cfg, emit func([]string)) {
 					for _, n := range []int{0, 1, 2} {
 						add(build(route, kt, 2, []string{s0, s1}, aclOK(kt, 2, n), false))
 					}
+					// multisig whose ACL reply carries key-change lists: a refused request must still write nothing
+					add(build(route, kt, 2, []string{s0, s1}, strings.Replace(aclOK(kt, 2, 0), ":100", ":10011", 1), false))
 				}
 			}
 		}
